@@ -520,12 +520,24 @@ pre_type(struct emu *emu)
 		return -1;
 	}
 
+	/* The jumbo data must hold the type id and a nil-terminated label */
+	size_t size = (size_t) emu->ev->payload->jumbo.size;
+	if (size <= 4) {
+		err("jumbo data too small: %zu bytes", size);
+		return -1;
+	}
+
 	const uint8_t *data = &emu->ev->payload->jumbo.data[0];
 	uint32_t typeid;
 	memcpy(&typeid, data, 4); /* May be unaligned */
 	data += 4;
 
 	const char *label = (const char *) data;
+
+	if (memchr(label, '\0', size - 4) == NULL) {
+		err("type label without nil terminator");
+		return -1;
+	}
 
 	struct nanos6_proc *proc = EXT(emu->proc, '6');
 	struct task_info *info = &proc->task_info;
